@@ -443,6 +443,21 @@ def judge_c08(d):
     q, impl, model = d["query"], d["impl"], d["model"]
     if impl in ("hang", "panic"):
         return "HTTP/1.1 session %s" % impl
+    if q.startswith("c08 relay"):
+        fi = dict(t.split("=", 1) for t in impl.split() if "=" in t)
+        fm = dict(t.split("=", 1) for t in model.split() if "=" in t)
+        parts = []
+        if fi.get("end") != fm.get("end"):
+            parts.append("the relaying listen() %s, the model of the loop says %s" % (
+                {"running": "was still running 5 s later", "graceful": "ended gracefully", "failed": "ended with an error"}.get(fi.get("end"), fi.get("end")),
+                fm.get("end")))
+        for k, what in (("up", "the upload side was handed"), ("down", "the client was sent")):
+            if fi.get(k) != fm.get(k):
+                li = 0 if fi.get(k) in (None, "-") else len(fi[k]) // 2
+                lm = 0 if fm.get(k) in (None, "-") else len(fm[k]) // 2
+                parts.append("%s %s payload bytes, expected %d%s" % (what, "no response at all and no" if fi.get(k) == "no-response" else li, lm,
+                                                                  "" if li != lm else " (same length, different bytes)"))
+        return "; ".join(parts) or None
     if model.startswith("request"):
         if not impl.startswith("request"):
             return "a valid request head was not recognised under this segmentation (%s)" % impl
@@ -601,6 +616,12 @@ def judge_c17(d):
                                                                unhex(fm.get("req", "")) if fm.get("req", "-") != "-" else b"")
     if impl.startswith("refused") or model.startswith("refused"):
         return "request answered %s, expected %s" % (impl, model)
+    if fi.get("rel") != fm.get("rel"):
+        ri = fi.get("rel", "")
+        return ("request %s %s, origin sink quotas %s: the client's request-body source was credited %s, the body bytes the origin accepted are %s "
+                "(the serialised head is the endpoint's own; an HTTP/2 client's window is released by exactly this credit)" % (
+                    f.get("m"), f.get("uri"), f.get("oq"),
+                    ("%s bytes when only %s had been read from it" % tuple(ri[5:].split(">")) if ri.startswith("over:") else ri + " bytes"), fm.get("rel")))
     return None
 
 
@@ -638,6 +659,13 @@ def judge_c18(d):
 
 def judge_c20(d):
     q, impl, model = d["query"], d["impl"], d["model"]
+    if q.startswith("c20 loggable"):
+        t = q.split()
+        target = "" if t[4] == "-" else unhex(t[4]).decode("latin-1")
+        lv = ["off", "error", "warn", "info", "debug", "trace"]
+        return ("the endpoint's logger %s a %s record of target %r at maximum level %s; the filter (TT/Model/Scrub.lean loggable) %s "
+                "(the TLS library's trace records dump the ClientHello with its server name)" % (
+                    "writes" if impl == "1" else "drops", lv[int(t[3])], target, lv[int(t[2])], "drops it" if model == "0" else "writes it"))
     return "scrubber output differs from the model: printed %s, expected %s" % (impl[:160], model[:160])
 
 
@@ -731,7 +759,8 @@ PROPS = {
              "and the random actually used"
              " Also 3 (thorough 8) hellos per rule list spread over two TLS records (cut after 4, 20, 39 bytes): the endpoint's look at the first record cannot determine the random, the model is asked with the random unavailable - lists with a random pattern fail closed"
              " Two rule lists look only at the end of the 32-byte random (a bit of byte 28; of byte 31, as an allow rule before a catch-all deny): on QUIC too the pattern is compared with the whole random"
-             " Long hellos (one record of about 2, 6, 14 KiB, made long by the ALPN list) with chosen randoms: the random is in the first 43 bytes whatever follows",
+             " Long hellos (one record of about 2, 6, 14 KiB, made long by the ALPN list) with chosen randoms: the random is in the first 43 bytes whatever follows"
+             " Rules files with fields given as empty strings (an empty CIDR matches nobody, an empty prefix still asks for a client random)",
         explanation="theorems first_match_wins, default_allow, fail_closed_without_random, prefix/mask semantics, "
                     "malformed_never_matches, mapped_peer_eq_v4_peer, deny_precedes_handshake about TT/Model/Rules.lean",
         trusted=["ipnet CIDR parsing and hex::decode (the harness passes parsed CIDRs to the model; hex decoding is modelled)",
@@ -759,7 +788,8 @@ PROPS = {
              "message is spread over two TLS records (cut inside the handshake header, inside and right after the random, later): the "
              "rules must be given the true random or none (`None`, so that random rules fail closed) - never another value"
              " The read loop also gets streams that end before the first record is complete (cut after 0, 1, 4, 5, 9, 43, 44 bytes, in the middle, one byte short): it must return at once with the random absent and the bytes replayed"
-             " Five clients deliver their hello with the following segment 250 - 700 ms late (a retransmission): still the hello's random",
+             " Five clients deliver their hello with the following segment 250 - 700 ms late (a retransmission): still the hello's random"
+             " Every other QUIC hello carries eight 200-byte ALPN identifiers behind h3 (about 2 KiB of CRYPTO data, two Initial packets)",
         explanation="theorems extract_exact, prefix_needs_more, found_is_the_field, loop_segmentation_invariant, "
                     "loop_absent_never_wrong, loop_conserves, replay_transparent/complete about TT/Model/ClientHello.lean",
         trusted=["tls-parser 0.12 record/handshake/ClientHello walk as transcribed; exactness claimed for records whose first handshake "
@@ -918,7 +948,8 @@ PROPS = {
              " Directed histories of half-closed tunnels with steady traffic in the other direction (see C02); theorems half_closed_not_early / half_closed_transfer_restarts"
              " Idle tunnels as the client sees them (in c14live): CONNECT over the real HTTP/1.1 and HTTP/2 codecs through the real direct forwarder to a loopback origin that stays silent, T = 500 ms, with one relayed byte or none: the client's connection (h1) / stream (h2) must end between T and 2T + slack after the last byte, and the origin's connection with it"
              " Two more clients that never finish: one complete TLS record holding the first 32 bytes of the hello's handshake message, then silence; one complete record of another type, then silence"
-             " One-sided traffic (in c14live): over real HTTP/1.1 and HTTP/2 codecs, the client - or the origin - sends a byte every T/3 for 3T while the other side is silent: the silent direction's timer fires and restarts the pipe's loops again and again, the tunnel must stay up and every byte arrive",
+             " One-sided traffic (in c14live): over real HTTP/1.1 and HTTP/2 codecs, the client - or the origin - sends a byte every T/3 for 3T while the other side is silent: the silent direction's timer fires and restarts the pipe's loops again and again, the tunnel must stay up and every byte arrive"
+             " Abandoned connects (suite c14live): CONNECT over HTTP/1.1 and HTTP/2 through the real direct forwarder to a loopback listener whose accept queue is full, establishment timeout 400 ms: the error comes no earlier than the timeout, and 300 ms later no socket of the process is in SYN_SENT towards that destination (/proc/net/tcp)",
         explanation="theorems idle_not_early, idle_bound_2T, progress_at_deadline_keeps_open, wf_step about the Timer model of "
                     "TT/Model/Pipe.lean; establishment_timeout_reported, establishment_in_time_connected, "
                     "establishment_timeout_destination_independent about TT.Dispatch.handle (the request path model of C10); "
@@ -950,9 +981,12 @@ PROPS = {
              "sink reach the codec while it is blocked writing to a client that reads 16 or 64 bytes at a time over a 64- or 1000-byte "
              "transport and closes last: the client must get the complete payload and the end of stream, the session must end gracefully"
              " Plus 4 CONNECT sessions whose relay side is dropped without an orderly end while the client stays connected and silent: "
-             "the session must end and the client must see its connection closed",
+             "the session must end and the client must see its connection closed"
+             " Relaying phase against TT/Model/H1Relay.lean: 200 (thorough 1500) sessions in which the client sends 1-5 payload segments and the peer writes and reads in a random script, ending with the peer's orderly end (3 in 5), the relay side dropped without one, or the client's end of stream: what the upload side was handed, what the client was sent and how the relaying listen() ended (graceful / failed / still running) are compared with the model's run over the same events",
         explanation="theorems head_segmentation_invariant, payload_exact, incomplete_head_waits, no_spin, head_bounded, oversize_rejected, "
-                    "response_wellformed about TT/Model/H1.lean under the hypothesis PrefixConsistent(parser)",
+                    "response_wellformed about TT/Model/H1.lean under the hypothesis PrefixConsistent(parser)"
+                    "; relaying_goes_on, relayed_until_close, session_ends_with_either_side, abort_is_not_graceful, "
+                    "upload_without_source_fails about the relaying loop (TT/Model/H1Relay.lean)",
         trusted=["httparse satisfies PrefixConsistent and agrees with 'head ends at the first CRLF CRLF' on the generated valid heads "
                  "(exercised on every prefix through the 1-cut and byte-wise runs)",
                  "tokio mpsc/Notify/select! semantics in the listen loop; download relaying ends when the client closes (by design)"],
@@ -1117,7 +1151,8 @@ PROPS = {
              " The SOCKS5 forwarder's multiplexer histories of C07 (suite c07socks: outbound_udp_sockets = one per association, "
              "released with the association's last flow) are run here too"
              " Before the listener is queried, two connections that send nothing and one that sends half a request line are opened to it and kept: the scrape, the health check and the unknown path must still be answered (2 s)"
-             " The direct-forwarder flow suite of C07 (c07, with the restarting destination) runs here too",
+             " The direct-forwarder flow suite of C07 (c07, with the restarting destination) runs here too"
+             " Ten bursts of three datagrams towards an HTTP/1.1 _udp2 client (its datagram sink holds one, the rest is dropped): the peer -> client counter of http1 equals the payload bytes of the 6.4 records the client was actually sent",
         explanation="theorems cells_equal_objects, gauges_nonneg, all_clients_gone_sessions_udp_zero, all_clients_gone_everything_zero, "
                     "refused_connect_balanced, hanging_connect_released_by_timeout, counters_monotone, up_adds_exactly, "
                     "down_adds_exactly, no_relay_no_bytes, half_closed_tunnel_released_when_both_ended, icmp_counts_only_relayed, udp_bytes_follow_multiplexer, documented_series, documented_paths about "
@@ -1161,8 +1196,9 @@ PROPS = {
              " Response heads with 31, 32, 33, 63, 64, 65, 100, 127, 128, 129, 200 header lines (whole and cut in the middle, client accepting 3 bytes first): the model refuses above `responseHeaderCapacity` = 128 (constants regenerated from the code), the implementation must answer and not spin (every scripted run is watched)"
              " A third of the generated requests repeat a header name on two or three lines (all must be forwarded)"
              " Responses carry Connection headers that nominate other fields of the response (X-Thing, SERVER, Set-Cookie, Content-Type, Upgrade) in their own spelling, ahead of those fields and behind them; a third of the requests with a declared length have more body bytes than declared (theorem connection_nominated_headers_removed)"
-             " Timer restarts (suite c17restart): POSTs over HTTP/1.1, 2, 3 whose body pauses for 4/3 ... 5/2 of the idle timeout while the origin sends an interim response every T/2: the pipe's loops are restarted under the pending read of the body, and the origin must still get all of it",
-        explanation="theorems segmentation_and_backpressure_independent, independent_after_origin_close, delivery_monotone, "
+             " Timer restarts (suite c17restart): POSTs over HTTP/1.1, 2, 3 whose body pauses for 4/3 ... 5/2 of the idle timeout while the origin sends an interim response every T/2: the pipe's loops are restarted under the pending read of the body, and the origin must still get all of it"
+             " The flow-control credit handed to the client's request-body source (consume calls logged by the scripted source) is part of every compared answer: never ahead of what was read from it, and in the end exactly the body bytes the origin accepted (theorem request_credit_exact) - a third of the cases have an origin that accepts the request in pieces of 0-20 bytes",
+        explanation="request_credit_exact, head_in_pieces_not_credited (flow-control credit of the request body under every acceptance schedule); theorems segmentation_and_backpressure_independent, independent_after_origin_close, delivery_monotone, "
                     "chunked_body_delivered_exactly, content_length_body_delivered_exactly, close_delimited_body_delivered_exactly, "
                     "bodiless_response_ends_with_head, head_204_304_are_bodiless, interim_response_is_transparent, "
                     "hop_by_hop_headers_removed, forwarded_headers_are_origin_headers, end_to_end_headers_kept, request_line_preserved, "
@@ -1200,7 +1236,8 @@ PROPS = {
              " Binary (suite c19bin): the real endpoint process with an HTTP/3 session, an idle TLS connection and a silent TCP "
              "connection is sent SIGINT: it must exit with code 0 within 10 s and the HTTP/3 client must see its connection closed"
              " HTTP/2 with a request in flight: a CONNECT whose outbound attempt takes 5 s is pending when the shutdown is submitted; a second request is handed to the client's connection 0..4 scheduler turns before, or 0..2 after, the submission (in one of these it is on the wire but unread when the wind-down starts), or not at all: the first request must be answered 200 when its attempt completes, the session must not end before, and completion() follows once the streams have ended"
-             " Borrowed: the HTTP/1.1 sessions of C08 that end while a chunk is queued towards a slow client (flush and close: the client must get all of it)",
+             " Borrowed: the HTTP/1.1 sessions of C08 that end while a chunk is queued towards a slow client (flush and close: the client must get all of it)"
+             " After completion() of the metrics-listener participant nothing accepts on the metrics address any more",
         explanation="theorems registered_before_submit_observes, waiting_participant_is_woken, no_submit_no_notification, "
                     "completion_iff_all_finished, completion_stable, late_registration_gets_no_guard about TT/Model/Shutdown.lean",
         trusted=["tokio broadcast (capacity 1, lag) and mpsc close semantics as modelled",
@@ -1258,14 +1295,16 @@ PROPS = {
              "(secret-bearing headers under invalid field names)"
              " Reverse-proxy requests (path mask + Upgrade) on connections that authenticated by SNI (accepted / rejected credentials / none), without a Host header, with one, with an absolute target"
              " Refused SNIs have the credentials label in front of one, two and three further labels (<creds>.unknownhost, <creds>.localhos, ...)"
-             " Plain-HTTP requests whose origin is reached (GET / POST, forwarded with Authorization and Cookie) are among the targets; the log-site scan also treats a request in serialised form (serialized_request, request_bytes ...) as secret-bearing",
+             " Plain-HTTP requests whose origin is reached (GET / POST, forwarded with Authorization and Cookie) are among the targets; the log-site scan also treats a request in serialised form (serialized_request, request_bytes ...) as secret-bearing"
+             " Failed TLS handshakes over TCP with credential SNIs on the live endpoint (the client stalls until the handshake timeout, closes, sends garbage, sends half a hello). The capture logger keeps what the endpoint's own loggers would write: their filter is compared with the model at every maximum x level x 11 targets",
         explanation="theorems scrub_request_hides (non-interference), scrubbed_values_are_placeholders, scrub_keeps_other_headers, "
                     "scrub_adds_nothing, scrub_sni_hides_label, meta_debug_hides_creds about TT/Model/Scrub.lean; all_log_sites_clean over the "
-                    "regenerated TT/Gen/LogSites.lean",
+                    "regenerated TT/Gen/LogSites.lean; tls_library_traces_never_logged, other_records_follow_the_level about the filter of the endpoint's loggers",
         trusted=["the taint rules of tools/extract.py (which expressions carry secrets, which wrappers make them safe, per-file "
                  "exceptions) - whole-program absence of leaks rests on them plus the dynamic search, not on a theorem about the code",
                  "the SOCKS5 path is covered by the site table only, not by scenarios",
-                 "the `http` crate prints header maps through Debug as the scenarios observe"],
+                 "the `http` crate prints header maps through Debug as the scenarios observe",
+                 "records of other dependencies (quiche, h2, tokio, ...) are searched by the scenarios only; of the TLS library's records only the trace level is filtered - its debug records, as observed, name suites and ALPN, not the server name"],
         assumptions=["a first label of an SNI that designates no host is scrubbed as potential credentials"],
     ),
 }
